@@ -121,8 +121,8 @@ fn core_word_div(xs: &mut State) -> Xresult {
             if *b == 0 {
                 Err(Xerr::DivisionByZero)
             } else {
-                let c = Cell::from(a / *b);
-                xs.push_data(c)
+                let c = a.checked_div(*b).ok_or_else(|| Xerr::IntegerOverflow)?;
+                xs.push_data(Cell::from(c))
             }
         }
         Cell::Real(b) => {
@@ -153,7 +153,10 @@ fn core_word_neg(xs: &mut State) -> Xresult {
 fn core_word_abs(xs: &mut State) -> Xresult {
     let a = xs.pop_data()?;
     match a.value() {
-        Cell::Int(a) => xs.push_data(Cell::Int(a.abs())),
+        Cell::Int(a) => {
+            let abs = a.checked_abs().ok_or_else(|| Xerr::IntegerOverflow)?;
+            xs.push_data(Cell::Int(abs))
+        }
         Cell::Real(a) => xs.push_data(Cell::Real(a.abs())),
         _ => Err(num_type_error(a)),
     }
@@ -293,7 +296,14 @@ fn core_word_max(xs: &mut State) -> Xresult {
 }
 
 fn core_word_rem(xs: &mut State) -> Xresult {
-    arithmetic_ops_real(xs, Xint::wrapping_rem, std::ops::Rem::<f64>::rem)
+    match xs.top_data()?.value() {
+        Cell::Int(0) => {
+            xs.pop_data()?;
+            xs.pop_data()?.to_xint()?;
+            Err(Xerr::DivisionByZero)
+        }
+        _ => arithmetic_ops_real(xs, Xint::wrapping_rem, std::ops::Rem::<f64>::rem),
+    }
 }
 
 fn core_word_bitand(xs: &mut State) -> Xresult {
